@@ -85,6 +85,9 @@ def dyadic_constraints(variables, denom=64):
     return cs
 
 
+_FINDING_SEEN = set()
+
+
 def discharge(log: UnitLog, c: core.Ctx, name, prop, variables, concrete, *, finding=None, timeout_ms=20000,
               robust=None, extra=(), sample=False, desc=None, ctxfree_ms=0):
     """Decide one obligation on one path.
@@ -160,7 +163,8 @@ def discharge(log: UnitLog, c: core.Ctx, name, prop, variables, concrete, *, fin
         if violated:
             reproduced = attempts[-1]
             break
-        if how == how0 and how0 == 'model':
+        if how == how0 and how0 == 'model' and not (finding and finding in _FINDING_SEEN):
+            # (a recorded finding already reproduced in this process is not searched for again: its companion obligation bounds the deviation)
             base = c.all_constraints() + list(extra)
             neg = [robust] if robust is not None else ([z3.Not(pt)] if not isinstance(pt, (bool, np.bool_)) else [])
             if robust is not None:
@@ -181,6 +185,8 @@ def discharge(log: UnitLog, c: core.Ctx, name, prop, variables, concrete, *, fin
     log['cex'].append(cex)
     if cex['reproduced'] and finding is None:
         _CEX_SEEN[0] += 1
+    if cex['reproduced'] and finding:
+        _FINDING_SEEN.add(finding)
     return 'sat'
 
 
